@@ -117,7 +117,9 @@ theorem prefix_np {b : Builder} (h : NoPanicInv b true) (p : Str) (u : StrSpan) 
   unfold Builder.prefix
   split
   · trivial
-  · dsimp only
+  · split
+    · trivial
+    dsimp only
     cases he : b.eb with
     | none => have := h.eb; rw [he] at this; cases this
     | some eb =>
@@ -433,13 +435,16 @@ theorem run_np (lexErr : Option Nat) (ts : List Token) :
       | false =>
         refine key false ?_ (by simpa [TagsOk] using htags)
         simp only [Builder.step, Builder.comment]
-        exact addLeaf_np h (.comment t.text) _ rfl rfl (keysSub_add _ _ _)
+        exact addLeaf_np h (.comment (normalizeLineEnds t.text)) _ rfl rfl (keysSub_add _ _ _)
     | pi target content sp =>
       cases inTag with
       | true => simp [TagsOk] at htags
       | false =>
         refine key false ?_ (by simpa [TagsOk] using htags)
-        simp only [Builder.step, Builder.processingInstruction]
+        simp only [Builder.step]
+        split
+        · trivial
+        simp only [Builder.processingInstruction]
         refine addLeaf_np (b := { b with env := (b.env.internName target.text Env.noNamespace).1 })
           ⟨h.eb, h.opens, h.top⟩ _ _ rfl rfl ?_
         cases content with
